@@ -51,3 +51,7 @@ CORPUS += [
     M("listening-window-skipped-for-hosts", D, "            await asyncio.sleep(timeout)\n", "            if target == _IPV4_BROADCAST:\n                await asyncio.sleep(timeout)\n            else:\n                await asyncio.sleep(0.5)\n"),
     M("n-listening-window-via-local", D, "            await asyncio.sleep(timeout)\n", "            delay = timeout\n            await asyncio.sleep(delay)\n", "S"),
 ]
+# round 11: the callbacks asyncio runs while discover() listens leave the socket open
+CORPUS += [
+    M("error-received-closes-transport", "msmart/discover.py", "        _LOGGER.error(\"Got error: %s\", exc)\n", "        _LOGGER.error(\"Got error: %s\", exc)\n        if self._transport is not None:\n            self._transport.close()\n"),
+]
